@@ -127,6 +127,16 @@ def sem_points(pts, n=240):
     return (ok[:40] + ok[40::step])[:n + 40]
 
 
+def array_lengths(ctx):
+    """lengths of the array calls that are compared element-wise with the scalar results: small, around powers of two up
+    to 2^17, and a few others; up to 2^21 + 1 in the thorough tier"""
+    ls = [0, 1, 2, 3, 7, 8, 9, 255, 256, 257, 1023, 1024, 1025, 4095, 4096, 4097, 32767, 32768, 32769, 65535, 65536, 65537,
+          100000, 131071, 131072, 131073, 216001, 262145]
+    if ctx.thorough:
+        ls += [524287, 524288, 524289, 1000000, 1048575, 1048576, 1048577, 2097153]
+    return ls
+
+
 def corpus_points():
     d = os.path.join(vf.VERIF, 'corpus', 'C19')
     out = {'deg': [], 'rad': []}
@@ -315,7 +325,7 @@ def run(ctx):
     pts = {'deg': dedup(corp['deg'] + deg_points(ctx)), 'rad': dedup(corp['rad'] + rad_points(ctx))}
     ctx.log('points: %d deg, %d rad' % (len(pts['deg']), len(pts['rad'])))
     sem = {u: sem_points(pts[u]) for u in pts}
-    impl = run_impl(ctx, dict({u: [x.hex() for x, _ in pts[u]] for u in pts}, sem={u: [x.hex() for x in sem[u]] for u in sem}))
+    impl = run_impl(ctx, dict({u: [x.hex() for x, _ in pts[u]] for u in pts}, sem={u: [x.hex() for x in sem[u]] for u in sem}, lengths=array_lengths(ctx)))
     ctx.log('IMPL done')
 
     failures = {}      # signature-key -> (simplicity, sig, text, case)
@@ -375,7 +385,7 @@ def run(ctx):
             failures[k] = ((0, 0.0), {'fn': it['fn'], 'unit': it['unit'], 'class': it['issue'], 'input_kind': it['input_kind']},
                            '%s, %s, %s input: %s' % (it['fn'], it['unit'], it['input_kind'], it['detail']),
                            {'fn': it['fn'], 'unit': it['unit'], 'semantics': True, 'input_kind': it['input_kind'], 'issue': it['issue'],
-                            'detail': it['detail'], 'inputs_hex': [x.hex() for x in sem[it['unit']]]})
+                            'detail': it['detail'], 'length': it.get('length'), 'inputs_hex': [x.hex() for x in sem[it['unit']]]})
     for u in sem:
         ctx.count('array-semantics inputs:%s' % u, len(sem[u]))
     # advisory: which unit a call without `deg` uses (not part of the property; never an alarm)
@@ -408,7 +418,7 @@ def run(ctx):
                     if not any(s.startswith(('EXC', 'TYPE')) for s in impl['y2h_' + u]['scalar']) else 'n/a'})
     ctx.coverage['rule'] = ('degrees: every multiple of 45 in [-1080,1080]; %s of the grid k/64 over that interval; 4 nextafter neighbours on each side of every multiple of 90 in it '
                             'and of 0/90/180/270 + 360k for k = +-10, +-1000, 12345, -2912, +-2^20; +-2^k for k=-60..60; 2^100..2^1023, DBL_MAX; denormals and DBL_MIN; +-0; '
-                            'uniform and log-uniform random magnitudes up to 1e6.  Array calling conventions (input bit-identical after the call, result not sharing memory with it, shape, repeatability, int arrays, array round trips reusing the original object) on ~280 inputs per unit as float64 1-D / strided view / 2-D / transposed view / 0-d / 1-element / read-only, float32, int64, list.  radians: the same with multiples of pi/4, neighbours of k*pi/2 computed three ways '
+                            'uniform and log-uniform random magnitudes up to 1e6.  Array calls at lengths 0..262145 (to 2^21+1 thorough) around powers of two, 1-D and (n/8, 8), compared bit-for-bit with the scalar results; call histories on one array object (in-place changes of the input and of earlier results between calls, alternating units and functions, released/re-created arrays) compared with the scalar calls.  Array calling conventions (input bit-identical after the call, result not sharing memory with it, shape, repeatability, int arrays, array round trips reusing the original object) on ~280 inputs per unit as float64 1-D / strided view / 2-D / transposed view / 0-d / 1-element / read-only, float32, int64, list.  radians: the same with multiples of pi/4, neighbours of k*pi/2 computed three ways '
                             '(k*math.pi/2, k*(math.pi/2), correctly rounded k*pi/2), grid step 1/%d over [-19,19].  Each input is evaluated by both functions as Python float, '
                             'numpy scalar, 1-D array and strided 2-D array, compared with the exact SPEC (range exactly; closeness %d ulp at scale max(|x|, 512 deg / 8 rad)), '
                             'and bit-for-bit with the PrimFloat model.  A case is distinct by (function, unit, input bits).'
@@ -432,7 +442,11 @@ def replay(ctx, rec):
         case = rec['detail']['case']
     if case.get('semantics'):
         unit = case['unit']
-        impl = run_impl(ctx, {'deg': [], 'rad': [], 'sem': {unit: case['inputs_hex']}})
+        if case.get('input_kind') == 'large-array':
+            pts = {'deg': dedup(deg_points(ctx)), 'rad': dedup(rad_points(ctx))}       # same seed -> same inputs
+            impl = run_impl(ctx, dict({u: [x.hex() for x, _ in pts[u]] for u in pts}, sem={}, lengths=[case['length']] if case.get('length') is not None else array_lengths(ctx)))
+        else:
+            impl = run_impl(ctx, {'deg': [], 'rad': [], 'sem': {unit: case['inputs_hex']}})
         shutil_rm(ctx)
         hits = [it for it in impl['array_semantics']]
         for it in hits:
